@@ -149,7 +149,7 @@ def FieldU32_Square2 : Spec where
   congr := some ⟨P25519, weights radix2625, ((fe32 0).mul (fe32 0)).scale 2⟩
 def FieldU32_SetBytes : Spec where
   pre := rep 32 (bits 8)
-  post := red32
+  post := red32t
   noWrap := false
   congr := none
 def FieldU32_SetBytesWide : Spec where
